@@ -256,12 +256,14 @@ def resign_variant(rng, tx):
 def near_variant(rng, tx):
     """a transaction that differs from tx in one small field only (last byte of the lock
     time, the version, one output's value, one input's sequence number or the last byte of
-    its outpoint): same length, same beginning or same end, another transaction"""
+    its outpoint, one input's script): same beginning or same end, another transaction"""
     ins, outs = list(tx["ins"]), list(tx["outs"])
     version, locktime = tx["version"], tx["locktime"]
-    how = rng.choice(["locktime", "locktime", "version", "value", "sequence", "outpoint"])
+    how = rng.choice(["locktime", "locktime", "version", "value", "sequence", "outpoint",
+                      "script", "script"])
     if how == "value" and not outs:
         how = "locktime"
+    ops_l, kinds_l = list(tx["ops"]), list(tx["kinds"])
     if how == "locktime":
         locktime ^= rng.choice([1, 0x80, 0x01000000, 0x80000000])
     elif how == "version":
@@ -272,14 +274,20 @@ def near_variant(rng, tx):
     elif how == "sequence":
         k = rng.randrange(len(ins))
         ins[k] = ins[k][:3] + (ins[k][3] ^ 1,)
+    elif how == "script":
+        # the same outpoint spent with another script (other operations, another last one)
+        k = rng.randrange(len(ins))
+        sc, ops, ks = gen_scriptsig(rng)
+        ins[k] = ins[k][:2] + (sc, ins[k][3])
+        ops_l[k], kinds_l[k] = ops, ks
     else:
         k = rng.randrange(len(ins))
         t = bytearray(ins[k][0])
         t[rng.choice([0, -1])] ^= 1
         ins[k] = (bytes(t),) + ins[k][1:]
-    out = dict(tx, ins=ins, outs=outs, version=version, locktime=locktime)
+    out = dict(tx, ins=ins, outs=outs, version=version, locktime=locktime, ops=ops_l,
+               kinds=kinds_l)
     out["raw"] = ser_tx(version, ins, outs, locktime, None)
-    assert len(out["raw"]) == len(ser_tx(tx["version"], tx["ins"], tx["outs"], tx["locktime"], None))
     return out
 
 
